@@ -26,7 +26,8 @@ RULE = ("writer histories: every operation of the alphabet of mc/ops.py from the
         "the call returns; non-trivial = history whose last operation changed the file; distinct by construction")
 ASSUMPTIONS = [
     "SIGKILL keeps the OS page cache: power loss and torn sectors are not modelled (the statement speaks of a process kill)",
-    "the child records its walk just before calling flush()/close(); reading does not modify the file",
+    "the child records its walk right after flush() returned (before close() for the close point); reading does not modify the file",
+    "the harness clock is advanced between the last operation and the flush/close",
 ]
 CHUNK = 4
 WALL_CAP = {"quick": 900, "thorough": 7200}
@@ -63,6 +64,13 @@ def cases(tier):
         for point in ("flush", "close"):
             for seed in ("empty", "mini"):
                 out.append({"seed": seed, "ops": [b], "point": point, "pre": None})
+                out.append({"seed": seed, "ops": [b], "point": point, "pre": None, "fcomp": True})
+    # files created with file-level compression DeflateNormal (also reopened after a clean close)
+    for h in explorer.enumerate_histories("mini", 1, THIN):
+        if h[-1][0] != "reopen":
+            for point in ("flush", "close"):
+                out.append({"seed": "mini", "ops": h, "point": point, "pre": None, "fcomp": True})
+                out.append({"seed": "mini", "ops": h, "point": point, "pre": "closed-and-reopened-rw", "fcomp": True})
     return out
 
 
@@ -93,7 +101,17 @@ def big_op(f, op):
 def child(path, side, case):
     """runs in a forked process; never returns"""
     try:
-        s = O.Session(path=path, build=explorer.SEEDS[case["seed"]])
+        if case.get("fcomp"):
+            # file-level compression setting chosen when the file is created
+            env.install_seams()
+            env.reset_execution()
+            s = O.Session.__new__(O.Session)
+            s.path, s.auto_ts, s.caches, s.mode = path, True, {"A": {}, "B": {}}, "rw"
+            s.f = nix.File.open(path, nix.FileMode.Overwrite, compression=nix.Compression.DeflateNormal)
+            if explorer.SEEDS[case["seed"]] is not None:
+                explorer.SEEDS[case["seed"]](s.f)
+        else:
+            s = O.Session(path=path, build=explorer.SEEDS[case["seed"]])
         if case.get("pre") == "closed-and-reopened-rw":
             s.reopen("rw")
         m = explorer.seed_model(case["seed"])
@@ -106,12 +124,17 @@ def child(path, side, case):
                     O.impl_apply(s, op)
             except Exception as e:  # noqa
                 status = "op-raised:" + type(e).__name__
-        w = walker.walk(s.f, core=True)
-        with open(side, "w") as fh:
-            json.dump({"status": status, "walk": w}, fh, default=repr)
+        env.CLOCK.advance(5)       # the clock moves on between the last operation and the flush/close
         if case["point"] == "flush":
             s.f.flush()
+            # the state at the moment flush() returned (reading does not write)
+            w = walker.walk(s.f, core=True)
+            with open(side, "w") as fh:
+                json.dump({"status": status, "walk": w}, fh, default=repr)
         else:
+            w = walker.walk(s.f, core=True)
+            with open(side, "w") as fh:
+                json.dump({"status": status, "walk": w}, fh, default=repr)
             s.f.close()
     except BaseException as e:  # noqa
         try:
@@ -144,7 +167,7 @@ def run_case(case):
         opk = explorer.opsig(case["ops"][-1]) if case["ops"][-1][0] != "big" else "big:%s:%s" % (case["ops"][-1][1], "gzip" if case["ops"][-1][2] else "raw")
         if rec["status"] == "ok":
             r.nontrivial = 1
-        r.outcomes.add("%s:%s" % (case["point"], rec["status"].split(":")[0]))
+        r.outcomes.add("%s:%s%s" % (case["point"], rec["status"].split(":")[0], ":file-deflate" if case.get("fcomp") else ""))
         for mode, label in ((nix.FileMode.ReadOnly, "ro"), (nix.FileMode.ReadWrite, "rw")):
             r.transitions += 1
             try:
